@@ -534,7 +534,7 @@ def run_check(prop, tier):
 
     # ---- generated ----------------------------------------------------------------------------
     n = 0
-    target = 3000 if quick else 80000
+    target = 2600 if quick else 80000
     while n < target and time.time() - t0 < t_budget:
         n += 1
         g = G.Gen(r, malformed=(r.random() < 0.03))
